@@ -497,7 +497,9 @@ inline model::MPath path(Ctx& c) {
         p.impl = r.chance(0.3) ? 1 : 0;
         p.nelem = (int)r.range(1, 3);
         p.hw = ongrid(c, 2, 20);
-        p.sep = p.nelem > 1 ? 2 * p.hw + ongrid(c, 2, 30) : 0;
+        // an even number of grid steps: two elements sit at +-sep/2, and an outline coordinate exactly half
+        // a grid step off the grid would be a rounding tie (decided by floating-point noise, not by the writer)
+        p.sep = p.nelem > 1 ? 2 * p.hw + 2 * ongrid(c, 1, 15) : 0;
         p.join = (int)r.below(4);
         static const int ends[] = {END_FLUSH_, END_ROUND_, END_HALF_, END_EXT_, END_SMOOTH_};
         p.end = ends[r.below(p.impl ? 4 : 5)];
